@@ -79,7 +79,7 @@ CHECKS = {
     "C17": dict(
         category="exploration", design_ref="3/C17",
         technique="differential testing on a simulated network: Hypothesis pairs/triples of scripted sessions x interleaving tapes x backend delays x optional cut of one session; oracle = each session's transcript and subtree equal its solo run",
-        text="2-3 scripted sessions (11 scripts covering all verbs, restarts, renames, relative paths after CWD, TYPE, re-login, ABOR, error replies) re-rooted to disjoint subtrees, as the same or as different users, are interleaved by generated per-segment latencies/segmentations and backend delays; optionally one of them is cut (peer vanishes) at a generated network event. Every surviving session's normalised transcript (codes, reply texts, transferred bytes, listings) and final subtree must equal those of the same script run alone.",
+        text="2-3 scripted sessions (12 scripts covering all verbs, restarts, renames, relative paths after CWD, TYPE, re-login, ABOR, error replies) re-rooted to disjoint subtrees, as the same or as different users, are interleaved by generated per-segment latencies/segmentations and backend delays; optionally one of them is cut (peer vanishes) at a generated network event. Every surviving session's normalised transcript (codes, reply texts, transferred bytes, listings) and final subtree must equal those of the same script run alone.",
         note="Normalisation masks port numbers and timestamps only. Mutants caught: restart offset, working directory shared between connections; one session's TYPE closing another's data connection."),
     "C19": dict(
         category="exploration", design_ref="3/C19",
@@ -112,20 +112,20 @@ CHECKS = {
 ADDED = {
     "C01": " Also through Client.upload/download of whole files, and with server options that must not matter (block size, timeouts, non-binding limits) drawn per case.",
     "C02": " The wire part runs two users with different bases on one server and re-logs-in on the same connection (each access must be inside the base of the user logged in when the command was sent). Part 'window': commands (CWD, CDUP, USER, MKD) sent between a transfer's 150 and its data connection must not change the location served or stored (metamorphic against the run without them).",
-    "C04": " Part 'window': the C02 window relation with permission-restricted locations - the location whose permission was checked is the one the worker uses.",
+    "C04": " Part 'window': the C02 window relation with permission-restricted locations - the location whose permission was checked is the one the worker uses. Part 'updown': directed histories (home below a generated table, then CDUP / 'CWD ..' / sideways CWD, PWD after each): every move is authorised by the entry governing its destination.",
     "C05": " Part 'real' runs the same walks over real loopback sockets on the stock asyncio loop, so simnet traces are validated against the implementation on a real network stack.",
     "C06": " Foreign codes are also placed on interior continuation lines (rejection demanded); part 'cmdloop' drives Client.command with generated expected/wait codes against generated reply sequences.",
     "C08": " Glob-flavoured names ('report[1]', 'st*r', 'wha?', '[!x]') get decoy siblings that a pattern reading would match; listings must contain exactly the named entry and the decoys.",
-    "C10": " Session ends also by QUIT + RST and command + RST (transport.abort()), so the release path behind a failing reply write is covered.",
+    "C10": " Session ends also by QUIT + RST and command + RST (transport.abort()), so the release path behind a failing reply write is covered. Events also put a session through a transfer state (425 for lack of a data connection, completed, aborted, cut while the worker waits) before it ends.",
     "C11": " Histories include re-USER on a session that holds a listener, two passive commands pipelined in one segment (one listener, one port, two answers) and a four-session history in which pool priorities diverge.",
-    "C12": " Cut family 'write_then_rst' resets the connection right after a command (the reply write fails); a slow-I/O backend mode makes open()/read()/write() suspend; the thorough tier re-runs the simnet calibration (repository suite on simnet).",
+    "C12": " Cut family 'write_then_rst' resets the connection right after a command (the reply write fails); a slow-I/O backend mode makes open()/read()/write() suspend; the thorough tier re-runs the simnet calibration (repository suite on simnet). Corpus script 'unused_data_relogin': an accepted but unused data connection meets a re-USER.",
     "C13": " The exception type rotates over 15 types (OSError subclasses, TimeoutError, KeyError, asyncio.TimeoutError, ...); AsyncPathIO path_timeout overruns are injected; part 'pipelined' sends command batches while a fault is pending (every command still gets exactly one completion reply).",
-    "C14": " Backend delays include open()/close(); part 'backpressure' sends ABOR while the server's data writes are blocked by a client that does not read.",
+    "C14": " Backend delays include open()/close(); part 'backpressure' sends ABOR while the server's data writes are blocked by a client that does not read. Follow-up transfers are also run on the listener the session already has (no new EPSV) once the server has closed the aborted transfer's data connection.",
     "C15": " Login choreographies (pending USER while another session of the user leaves, re-USER, early bird, wrong password first) and part 'relogin' (data connection opened as user A, re-login as user B, transfer on the existing connection: B's limit applies, A's never delays it).",
     "C17": " Payload sizes are session-specific and 14 backend operations can be delayed, so facts or offsets leaking between sessions show in the bytes.",
-    "C19": " The hostile-client part also counts server-wide and per-user connection slots as session resources. The 'line not dropped' rule is decided constructively: generated bytes are also decoded into a well-formed unix/windows/MLSx line whose name is known by construction; it must never be parsed as '.'/'..' unless the name lexically is one.",
+    "C19": " The hostile-client part also counts server-wide and per-user connection slots as session resources. The 'line not dropped' rule is decided constructively: generated bytes are also decoded into a well-formed unix/windows/MLSx line whose name is known by construction; it must never be parsed as '.'/'..' unless the name lexically is one. After hostile input a fresh session lists '/' and every directory left behind, with MLSD and LIST.",
     "C03": " Part 'pipelined': three users with disjoint bases, a backend that really suspends, 2-5 lines sent in one segment (path commands, USER, PASS): the backend is never asked about a path inside the base of a user the session did not supply credentials for, none of that user's content is served, that user's subtree is unchanged.",
-    "C20": " Scenarios also: over-limit user / server (530/421 replies), error paths, clients with latin-1 / ASCII encoding and passwords they cannot encode (the third twin is skipped there, counted).",
+    "C20": " Scenarios also: over-limit user / server (530/421 replies), error paths, clients with latin-1 / ASCII encoding and passwords they cannot encode (the third twin is skipped there, counted). Mode 'work': a logged-in password user reaches every remaining server log site (listing with a vanished entry, transfers, 425, ABOR, QUIT).",
 }
 
 NOT_YET = {}
